@@ -169,8 +169,11 @@ def handle (c : Case) (args : List String) : CaseOut :=
           else
             match (List.range exp.size).find? (fun k => impl[k]! ≠ exp[k]!) with
             | none => .ok
-            | some k => .fail s!"expected [{exp[k]!}] observed [{impl[k]!}]"
-      let multi := 2 * ring * deg ≥ 251
+            | some k =>
+              if impl[k]!.endsWith " ERR" then
+                .fail s!"the loader failed (panicked) on the file graph_plier wrote for a well-formed metis input ({2 * ring * deg} edges, {nc} coordinates): observed [{impl[k]!}] expected [{(exp[k]!.take 120).toString}]"
+              else .fail s!"expected [{exp[k]!}] observed [{impl[k]!}]"
+      let multi := 2 * ring * deg ≥ 251 || nc ≥ 251
       { model := m, verdict := verdict,
         stats := [("nontrivial", bit (multi && ring < n)), ("glines", toString (ring + 1)), ("clines", toString nc),
                   ("edges", toString (2 * ring * deg)), ("selfloops", toString ring), ("comments", "0"),
